@@ -661,3 +661,33 @@ var parseCorpus = []string{
 	"let x = 1; let y = x + 1; T | take y", "T; U", "T !; U", "T | where a == 'unterminated", "T | where `open", "T | where 0x", "T | where a ! b",
 	"T | where a\n| count // c\n", "T // only comment", "// nothing", "T | where a // c", "x = p", "T | where x = p",
 }
+
+func init() {
+	caseSets["walk"] = genWalkCases
+}
+
+func genWalkCases(tier string, emit func(op string, fields ...string)) {
+	n := 3000
+	if tier == "thorough" {
+		n = 50000
+	}
+	for _, s := range parseCorpus {
+		emit("WALK", hexs(s), "-")
+		emit("WALK", hexs(s), "10")
+	}
+	for i := 0; i < n; i++ {
+		depth := 1 + rng.Intn(4)
+		src := genProgram(nil, depth, i%4 == 0)
+		emit("WALK", hexs(src), "-")
+		// pseudo-random pruning masks
+		var mb strings.Builder
+		for k, m := 0, 1+rng.Intn(12); k < m; k++ {
+			if rng.Intn(3) == 0 {
+				mb.WriteByte('0')
+			} else {
+				mb.WriteByte('1')
+			}
+		}
+		emit("WALK", hexs(src), mb.String())
+	}
+}
